@@ -1,0 +1,31 @@
+//! Read-only instrumentation used by external verification harnesses.
+//!
+//! Compiled only with the `verif-hooks` feature. The hooks never influence the
+//! simulation: they record the outcome of the fs rng draws that decide
+//! durability (background sync coin, torn-write block counts).
+
+use std::cell::RefCell;
+
+/// One recorded decision of the filesystem simulation.
+#[derive(Debug, Clone, PartialEq, Eq)]
+pub enum Decision {
+    /// The background-sync coin of a write / set_len came up true (a consulted
+    /// coin that came up false leaves no record).
+    SyncCoin(bool),
+    /// Torn-write draw for one pending write of a durable file at crash time:
+    /// the write spans `total` blocks of which the first `surviving` are kept.
+    TornBlocks { total: u64, surviving: u64 },
+}
+
+thread_local! {
+    static LOG: RefCell<Vec<Decision>> = const { RefCell::new(Vec::new()) };
+}
+
+pub(crate) fn record(d: Decision) {
+    LOG.with(|l| l.borrow_mut().push(d));
+}
+
+/// Drain the decision log of the current thread.
+pub fn take_decisions() -> Vec<Decision> {
+    LOG.with(|l| std::mem::take(&mut *l.borrow_mut()))
+}
